@@ -31,6 +31,9 @@ def run_mc(tier, invariants, liveness=False, prop=None):
     if prop == "C20":
         # C20's own model is MCSteps (sequential half); here only the kill-safety of the durable side under interleaving
         cfgs = [dict(MC_BASE, WalN=1, ProgKeys="{1}", WithReads="FALSE")] if tier == "quick" else cfgs[:3]
+    if tier == "quick" and prop in ("C07", "C08", "C13"):
+        # the concurrent halves of sequential properties: the two small configurations (C04's own run has all of them)
+        cfgs = cfgs[1:]
     for c in cfgs:
         extra = ["VIEW View"]
         out = tlc("MCConc", cfg_text(c, invariants=invariants, extra=extra).replace("CHECK_DEADLOCK FALSE", "CHECK_DEADLOCK TRUE"),
@@ -92,12 +95,16 @@ def build_scenarios(prop, tier, rnd):
 
     dfs = {"kind": "dfs", "bound": 2, "runs": 60 if q else 600}
     if prop == "C08":
-        deep = {"kind": "dfs", "bound": 3, "runs": 150 if q else 1500}
+        deep = {"kind": "dfs", "bound": 3, "runs": 90 if q else 1500}
         for cl in ("cleanup", "quarantine", "cleanone"):
             for other in ([{"op": "put", "k": 1, "c": "C"}], [{"op": "put", "k": 2, "c": "C"}, {"op": "del", "k": 2}], [{"op": "del", "k": 1}],
                           [{"op": "put", "k": 2, "c": "C"}, {"op": "put", "k": 2, "c": "A"}]):
                 for pl in ([{"c": "C"}], [{"c": "C"}, {"c": "E"}], [{"c": "E"}, {"c": "C"}]):
                     add([{"op": "put", "k": 1, "c": "A"}], [[{"op": cl, "c": "C"}], other], deep, plant=pl)
+            # a staging leftover of an earlier crash next to the orphan: clean-up removes the REPORTED staging files only, never
+            # the staging file of a transaction that is open or committing while it runs
+            for other in ([{"op": "put", "k": 2, "c": "B"}], [{"op": "put", "k": 1, "c": "C"}], [{"op": "txbegin", "k": 2, "c": "G"}, {"op": "txfinish", "k": 2, "c": "G"}]):
+                add([{"op": "put", "k": 1, "c": "A"}], [[{"op": cl, "c": "C"}], other], deep, plant=[{"c": "C"}, {"c": "-", "kind": "staging"}])
         return sc
     if prop == "C20":
         # the log and the snapshot at every scheduling step of writers racing with checkpoints (explicit and rollover):
